@@ -1,25 +1,25 @@
-SPECIFICATION FairSpec
+SPECIFICATION Spec
 CONSTANTS
-  Targets <- T2
-  Sensors <- S2
-  InitTargets <- T2
-  InitSensors <- S2
-  Engines <- E2
-  EngTargets <- SplitT
-  EngSensors <- SplitS
-  Policy <- PolMixed
-  NSteps = 3
-  SpanSteps = 3
-  Dt = 3
-  OutDt = 3
-  Events <- Durations
+  Targets <- T1
+  Sensors <- S1
+  InitTargets <- T1
+  InitSensors <- S1
+  Engines <- E1
+  EngTargets <- AllT
+  EngSensors <- AllS
+  Policy <- PolGreedy
+  NSteps = 4
+  SpanSteps = 2
+  Dt = 1
+  OutDt = 2
+  Events <- NoEvents
   WithEstimation = TRUE
   WithSerendipity = FALSE
-  WithFaults = FALSE
+  WithFaults = TRUE
   ResetChangesPerJob = FALSE
   MissListSquared = FALSE
   KeepMissedAcrossSteps = FALSE
-  PriorityToAllEngines = TRUE
+  PriorityToAllEngines = FALSE
   PruneKeepsEqual = FALSE
   PartialCommit = FALSE
   UpdateTouchesTruth = FALSE
@@ -43,4 +43,3 @@ INVARIANT NeverTwice
 INVARIANT BiasActiveExactly
 PROPERTY NonInterference
 PROPERTY CommitAtomic
-PROPERTY RunCompletes
